@@ -47,7 +47,19 @@ fn base_doc(b: &Value) -> Option<Vec<u8>> {
         "uncompressed" => WriterConfig { use_xref_streams: false, use_object_streams: false, pdf_version: "1.7".into(), compress_streams: false, incremental_update: false },
         _ => WriterConfig::default(),
     };
-    doc.to_bytes_with_config(cfg).ok()
+    let mut bytes = doc.to_bytes_with_config(cfg).ok()?;
+    // what follows %%EOF (MCIncr.Bases[..].tail): the file stays the same document, an editor must keep these bytes too
+    while matches!(bytes.last(), Some(b'\n') | Some(b'\r') | Some(b' ')) {
+        bytes.pop();
+    }
+    bytes.extend_from_slice(match b["tail"].as_str().unwrap_or("lf") {
+        "crlf" => b"\r\n".as_slice(),
+        "none" => b"".as_slice(),
+        "blank" => b"\n\n".as_slice(),
+        "spaces" => b"  \n".as_slice(),
+        _ => b"\n".as_slice(),
+    });
+    Some(bytes)
 }
 
 type Rd = PdfReader<Cursor<Vec<u8>>>;
